@@ -35,7 +35,6 @@ ASSUMPTIONS = [
 TECHNIQUE = ('typestate (clean/dirty per receiver) as a may-dataflow over the CFG with method summaries by fixpoint; path enumeration; decision tables over canonical atoms '
              'compared on every world; set comparison of folded constant tables; regex-language facts (membership, empty intersection)')
 
-BY_DESIGN = {'__iadd__': 'the UNIQUE test looks at all three stores', '__len__': 'the length is the sum of all three stores'}
 STORES = (lazy.STORE,) + lazy.QUEUES
 
 EXAMPLE = '''
@@ -100,6 +99,7 @@ def family(repo: Repo) -> lazy.Family:
         if not grew:
             break
     fam = lazy.Family(repo, root_mod, ROOT, members)
+    fam.compute_roles(texts)
     fam.solve()
     return fam
 
@@ -144,7 +144,7 @@ def _by_design(ctx: RuleCtx, mod: Module, qn: str, fn: ast.AST, accs: T.List[laz
                     f', {a.key}.'.join(missing) + ': pending entries are not accounted for', a.node)
     if not member:
         return
-    paths = enumerate_paths(fn.body, unroll=1)  # type: ignore[attr-defined]
+    paths = enumerate_paths(fn.body, unroll=1, bool_returns=True)  # type: ignore[attr-defined]
     bad: T.Dict[str, T.Tuple[ast.AST, str]] = {}
     n_obs = 0
     for p in paths:
@@ -197,6 +197,9 @@ def r1(ctx: RuleCtx) -> None:
     for need in ('__iadd__', 'append', 'extend'):
         if need not in dirtying:
             raise Undecided(f'{ROOT}.{need} is not recognised as queueing into pre/post (summaries: {dirtying})')
+    inherited = {n: r for n, r in fam.roles.items() if n not in ('__init__', lazy.FLUSH) + lazy.DESIGN_READERS}
+    if inherited:
+        ctx.note(f'private helpers that inherit a role through the call graph (only called as self.helper() from methods of that role): {inherited}')
     _builtin_example(ctx, fam)
 
     funcs = _accessing_functions(repo)
@@ -231,7 +234,7 @@ def r1(ctx: RuleCtx) -> None:
                 ctx.ok(f'{what}: flushed on every path ({a.status[1]})')
             elif a.status[0] == lazy.UNKNOWN:
                 undecided.append(f'{what}: {a.status[1]}')
-            elif cls_key is not None and a.key == 'self' and getattr(fn, 'name', '') in BY_DESIGN and isinstance(a.node.ctx, ast.Load):
+            elif cls_key is not None and a.key == 'self' and an.role == 'design' and isinstance(a.node.ctx, ast.Load):
                 design.append(a)
             else:
                 ctx.violation(mod, qn, a.node,
